@@ -40,6 +40,7 @@ def run(idx: ProgramIndex, rep: Report, tier: str):
     consumer_roles(idx, rep)
     aliasing(idx, rep)
     closed_form_assembly(idx, rep)
+    factor_orientation(idx, rep)
 
 
 # ---- C01-1 ---------------------------------------------------------------------------------------------------------
@@ -411,3 +412,71 @@ def closed_form_assembly(idx: ProgramIndex, rep: Report):
     ok = not probs and seen["exact"] >= 1 and seen["root"] >= 1
     rep.add("C01-7", "%s:DefaultPredictionStrategy.exact_predictive_covar" % D.module.name, pc.where, ok,
             "K** - K*x (K+S)^-1 Kx* on %d exact path(s), K** - R R^T on %d cached-root path(s)" % (seen["exact"], seen["root"]) if ok else "; ".join(sorted(set(probs))[:3]) or "an expected form is missing %s" % seen, seen)
+
+
+# ---- C01-8 ---------------------------------------------------------------------------------------------------------
+def factor_orientation(idx: ProgramIndex, rep: Report):
+    """A prediction strategy that writes a covariance correction as RootLinearOperator(X @ R) means X (R R^T) X^T.  With R a Cholesky factor of
+    A that is X A X^T only for the LOWER factor (L L^T = A); the upper factor U = L^T gives X (L^T L) X^T - same shape, symmetric, positive
+    semi-definite, and a different matrix.  Orientation is tracked through the strategy's own cached members and transposes."""
+    rep.rule("C01-8", "a Cholesky factor multiplied from the right into a root (RootLinearOperator(X @ R), i.e. X R R^T X^T) is the lower factor of the matrix it stands for (orientation tracked through cached members and transposes)")
+    base = idx.find_class("DefaultPredictionStrategy")
+    n = 0
+
+    def orientation(cls, fi, e, depth=0) -> Optional[str]:
+        if depth > 6:
+            return None
+        if isinstance(e, ast.Call):
+            fn = (chain(e.func) or "").split(".")[-1]
+            if fn in ("psd_safe_cholesky", "cholesky") and (isinstance(e.func, ast.Name) or chain(e.func) in ("torch.linalg.cholesky", "torch.cholesky") or isinstance(e.func, ast.Attribute)):
+                up = [k.value for k in e.keywords if k.arg == "upper"]
+                if fn == "psd_safe_cholesky" and len(e.args) > 1:
+                    up = up or [e.args[1]]
+                if up and isinstance(up[0], ast.Constant) and up[0].value is True:
+                    return "upper"
+                if up and not isinstance(up[0], ast.Constant):
+                    return None
+                return "lower"
+            if isinstance(e.func, ast.Attribute) and e.func.attr in ("transpose", "t") or (isinstance(e.func, ast.Attribute) and e.func.attr == "mT"):
+                o = orientation(cls, fi, e.func.value, depth + 1)
+                return {"lower": "upper", "upper": "lower"}.get(o)
+            if isinstance(e.func, ast.Attribute) and e.func.attr in ("detach", "to_dense", "contiguous", "clone", "to", "type_as"):
+                return orientation(cls, fi, e.func.value, depth + 1)
+            return None
+        if isinstance(e, ast.Attribute) and e.attr == "mT":
+            return {"lower": "upper", "upper": "lower"}.get(orientation(cls, fi, e.value, depth + 1))
+        if isinstance(e, ast.Attribute) and chain(e.value) == fi.params[0]:
+            m = cls.lookup(e.attr)
+            if m is None:
+                return None
+            rets = [r.value for r in ast.walk(m.node) if isinstance(r, ast.Return) and r.value is not None]
+            os_ = {orientation(cls, m, r, depth + 1) for r in rets}
+            return os_.pop() if len(os_) == 1 else None
+        if isinstance(e, ast.Name):
+            vals = [a.value for a in ast.walk(fi.node) if isinstance(a, ast.Assign) and any(isinstance(t, ast.Name) and t.id == e.id for t in a.targets)]
+            # a name re-bound from itself (res = res.detach()) keeps its orientation
+            os_ = {orientation(cls, fi, v, depth + 1) for v in vals if not (isinstance(v, ast.Call) and isinstance(v.func, ast.Attribute) and isinstance(v.func.value, ast.Name) and v.func.value.id == e.id)}
+            return os_.pop() if len(os_) == 1 else None
+        return None
+    for cls in sorted([base] + list(idx.subclasses(base)), key=lambda c: c.qualname):
+        for name, fi in sorted(cls.methods.items()):
+            k = 0
+            for c in sorted(calls_in(fi.node), key=lambda q: (q.lineno, q.col_offset)):
+                if (chain(c.func) or "").split(".")[-1] != "RootLinearOperator" or not c.args:
+                    continue
+                a = c.args[0]
+                right = None
+                if isinstance(a, ast.BinOp) and isinstance(a.op, ast.MatMult):
+                    right = a.right
+                elif isinstance(a, ast.Call) and isinstance(a.func, ast.Attribute) and a.func.attr == "matmul" and a.args:
+                    right = a.args[0]
+                if right is None:
+                    continue
+                n += 1
+                k += 1
+                o = orientation(cls, fi, right)
+                ok = o != "upper"
+                rep.add("C01-8", "%s:%s.%s[root with a right factor #%d]" % (cls.module.name, cls.qualname, name, k), "%s:%d" % (fi.module.relpath, c.lineno), ok,
+                        ("the right factor is a lower Cholesky factor" if o == "lower" else "the right factor is not a Cholesky factor the rule tracks") if ok else
+                        "`%s`: the right factor is an UPPER Cholesky factor U of the inner matrix A (U^T U = A); the root then represents X U U^T X^T instead of X A X^T - a symmetric PSD matrix of the right shape and the wrong values: the posterior covariance is off by 0.09-0.35 while the mean stays exact" % norm(c)[:70], {})
+    rep.floor("C01-8", "roots formed with a right factor in the prediction strategies", n, 1)
